@@ -1,6 +1,6 @@
 CONSTANTS
-  Shapes <- OneShape
-  MaxSC = 2
+  Shapes <- OneSes
+  MaxSC = 3
   Cols <- ColsDef
   Excluded <- ExcludedDef
   DecoyKinds <- DecoyKindsDef
